@@ -231,6 +231,11 @@ def sc_terminate(params, obs, save):
     obs['workers_after'] = {str(pid): (kids.get(pid) or pid_exists(pid)) for pid in up
                             if (kids.get(pid) or pid_exists(pid))}
     obs['all_worker_pids'] = list(up)
+    # terminate() does not join the supervisor, which may still be finishing
+    # its current sleep (<= 0.8 s + 10 x 0.1 s) without doing anything more:
+    # tolerated for 3 s, recorded
+    obs['threads_at_return'] = _thread_names(_pool_threads(before))
+    _wait_for(lambda: not _pool_threads(before), 3.0)
     obs['threads_after'] = _thread_names(_pool_threads(before))
     # results delivered before the call stay intact
     obs['pre_results'] = [[t, v, _outcome(lambda h=h: h.get(0))] for t, h, v in done_before]
@@ -545,7 +550,9 @@ def sc_recycle(params, obs, save):
             res.append([job, _collect(job, h, params.get('wait', 60))])
     obs['results'] = res
     obs['wall'] = time.monotonic() - t0
-    time.sleep(1.2)      # let supervision bring the pool back to size
+    # let supervision bring the pool back to size (a recycling worker sleeps
+    # 1 s in its exit path, supervision runs every 0.8 s)
+    _wait_for(lambda: len([w for w in pool._pool if w._is_alive()]) == params['nproc'], 10)
     obs['live_workers'] = len([w for w in pool._pool if w._is_alive()])
     obs['indices'] = sorted(getattr(w, 'index', -1) for w in pool._pool)
     obs['ups'] = len(up)
@@ -565,13 +572,31 @@ def sc_kill_idle(params, obs, save):
         hs = [pool.apply_async(tasks.t_pid, ('warm', 0.1)) for _ in range(params['nproc'])]
         for x in hs:
             seen.add(x.get(20)[2])
-    time.sleep(0.2)
-    victims = sorted(seen)[:params.get('kill', 1)]
+    time.sleep(0.4)
+    # one idle worker sits in the blocking read holding the task queue's read
+    # lock, the others wait for that lock
+    def wchan(pid):
+        try:
+            return open('/proc/%d/wchan' % pid).read()
+        except OSError:
+            return ''
+    holders = [p for p in sorted(seen) if 'pipe' in wchan(p)]
+    waiters = [p for p in sorted(seen) if p not in holders]
+    obs['holders'], obs['waiters'] = holders, waiters
+    if params.get('victim_kind') == 'holder':
+        victims = holders[:1]
+    elif params.get('victim_kind') == 'waiter':
+        victims = waiters[:params.get('kill', 1)]
+    else:
+        victims = sorted(seen)[:params.get('kill', 1)]
+    obs['victims'] = victims
+    obs['victim_held_queue_lock'] = any(v in holders for v in victims)
     for v in victims:
         log('idle_kill', wpid=v)
         os.kill(v, params.get('sig', 9))
     hs = [pool.apply_async(tasks.t_pid, ('after.%d' % i, 0.05)) for i in range(6)]
-    obs['after'] = [_outcome(lambda o=o: o.get(20)) for o in hs]
+    t_end = time.monotonic() + 25
+    obs['after'] = [_outcome(lambda o=o: o.get(max(0.5, t_end - time.monotonic()))) for o in hs]
     _wait_for(lambda: len([w for w in pool._pool if w._is_alive()]) == params['nproc']
               and not any(w.pid in victims for w in pool._pool), 6)
     obs['live_workers'] = len([w for w in pool._pool if w._is_alive()])
